@@ -176,6 +176,7 @@ Inductive event :=
 | EvReg (p : player)                   (* registerConnection(p) returned true *)
 | EvRejected (p : player)              (* canRegisterConnection / registerConnection said no *)
 | EvTeardown (p : player) (st : status)(* p's own connection ran teardown (its own disconnect) *)
+| EvUnreg (p : player)                 (* a bare unregisterConnection(p) (p asks for its own removal) *)
 | EvBlocked.                           (* a step that needs muP after muP was leaked *)
 
 (* connectedPlayer.teardown: unregisterConnection(p), then the DisconnectEvent status *)
@@ -245,7 +246,7 @@ Definition sem (c : cfg) (a : act) : @action state event := fun s =>
       | _ => (s, [])
       end
   | AUnreg p =>
-      if leaked s then blocked s else (fst (unregister c p s), [])
+      if leaked s then blocked s else (fst (unregister c p s), [EvUnreg p])
   end.
 
 (* ---------- goroutines ---------- *)
